@@ -165,6 +165,7 @@ def run_real(case):
             return r
         ch._flush_some = rec_flush
         expected = b""
+        maxw = [0]
         for i, op in enumerate(case["ops"]):
             sock.answers = list(op[-1])
             sock.wire = b""
@@ -214,6 +215,15 @@ def run_real(case):
                 problems.append((i, "total_outbufs_len is %d, the buffers hold %d bytes" % (ch.total_outbufs_len, tot)))
             if not ch.outbufs or not isinstance(ch.outbufs[-1], wb.OverflowableBuffer):
                 problems.append((i, "the last output buffer is not a writable OverflowableBuffer"))
+            # per-buffer bound (C12_buffer_rotation_bound): W = the largest byte string written so far
+            if op[0] == "w":
+                maxw[0] = max(maxw[0], len(data))
+            bound = max(hw - 1, 0) + maxw[0]
+            for b in ch.outbufs:
+                if isinstance(b, wb.OverflowableBuffer) and b.__len__() > bound:
+                    problems.append((i, "an OverflowableBuffer holds %d bytes, more than max(high_watermark-1,0)+W = %d" % (b.__len__(), bound)))
+            if not (0 <= ch.current_outbuf_count <= bound):
+                problems.append((i, "current_outbuf_count is %d, outside 0..%d" % (ch.current_outbuf_count, bound)))
             if not expected.startswith(sock.all_wire):
                 problems.append((i, "the socket accepted %s, which is not a prefix of what was written (%s)" % (show(sock.all_wire), show(expected))))
             if stop.startswith("escaped"):
